@@ -12,7 +12,7 @@
    Z.land, Z.lor, Z.lnot, Z.shiftl, Z.shiftr. *)
 From Coq Require Import ZArith List Bool.
 Import ListNotations.
-From Urwid Require Import PyBase PyList ColourBase colours_gen.
+From Urwid Require Import PyBase PyList ColourBase ColourStr colours_gen.
 Open Scope Z_scope.
 
 (* one comma-separated, stripped part of a foreground string *)
@@ -176,6 +176,111 @@ Fixpoint parts_of_settings (ss : list setting) (bs : list bool) : list part :=
 Definition parts_of_foreground (f : desc * list bool) : list part :=
   PCol (fst f) :: parts_of_settings setting_order (snd f).
 
+(* ================= string level =================
+   The same constructor and describers on raw strings (lists of code points): foreground.split(","),
+   part.strip(), `part in _ATTRIBUTES`, `part in {"", "default"}`, `part in _BASIC_COLORS`,
+   _BASIC_COLORS.index(part) and the string-level parsers / describers of Gen/colours_gen.v
+   (translated from the source without any lexical abstraction). *)
+Definition S_default : str := [100; 101; 102; 97; 117; 108; 116].                       (* "default" *)
+Fixpoint find_setting (l : list (str * setting)) (p : str) : option setting :=
+  match l with [] => None | (n, s) :: r => if str_eqb n p then Some s else find_setting r p end.
+
+(* the colour branch of __set_foreground / __set_background on a string *)
+Definition parse_part_s (v : Z) (p : str) (f_basic f_high f_true : Z) : result (option Z * Z) :=
+  if str_eqb p [] || str_eqb p S_default then Ok (Some 0, 0)
+  else match str_index BASIC_COLORS p with
+  | Some i => Ok (Some i, f_basic)
+  | None =>
+      if negb (Z.land v HIGH_88_COLOR =? 0) then
+        bind (parse_color_88_s p) (fun c => Ok (c, f_high))
+      else if negb (Z.land v HIGH_TRUE_COLOR =? 0) then
+        bind (parse_color_true_s p) (fun c => Ok (c, f_true))
+      else
+        (* _parse_color_256(_true_to_256(part) or part): an empty string is falsy too *)
+        bind (true_to_256_s p) (fun t =>
+        bind (parse_color_256_s (match t with Some (c :: r) => c :: r | _ => p end)) (fun c => Ok (c, f_high)))
+  end.
+
+(* the loop of __set_foreground over the stripped parts *)
+Fixpoint fg_loop_s (v : Z) (parts : list str) (color : option Z) (flags : Z) : res (option Z * Z) :=
+  match parts with
+  | [] => ROk (color, flags)
+  | p :: rest =>
+      match find_setting ATTRIBUTE_NAMES p with
+      | Some s =>
+          if negb (Z.land flags (ATTRIBUTES s) =? 0) then RErr AttrSpecError 1
+          else fg_loop_s v rest color (Z.lor flags (ATTRIBUTES s))
+      | None =>
+          match parse_part_s v p FG_BASIC_COLOR FG_HIGH_COLOR FG_TRUE_COLOR with
+          | Err e => RErr e 0
+          | Ok (scolor, kf) =>
+              let flags' := Z.lor flags kf in
+              match scolor with
+              | None => RErr AttrSpecError 2
+              | Some sc =>
+                  match color with
+                  | Some _ => RErr AttrSpecError 3
+                  | None => fg_loop_s v rest (Some sc) flags'
+                  end
+              end
+          end
+      end
+  end.
+
+Definition fg_parts (fg : str) : list str := map strip (split_on 44 fg).      (* 44 = "," *)
+
+Definition set_foreground_s (v : Z) (fg : str) : res Z :=
+  rbind (fg_loop_s v (fg_parts fg) None 0) (fun cf =>
+  let color := match fst cf with Some c => c | None => 0 end in
+  ROk (Z.lor (Z.lor (Z.land v (Z.lnot FG_MASK)) color) (snd cf))).
+
+Definition set_background_s (v : Z) (bg : str) : res Z :=
+  rbind (lift (parse_part_s v bg BG_BASIC_COLOR BG_HIGH_COLOR BG_TRUE_COLOR)) (fun cf =>
+  match fst cf with
+  | None => RErr AttrSpecError 4
+  | Some color => ROk (Z.lor (Z.lor (Z.land v (Z.lnot BG_MASK)) (Z.shiftl color BG_SHIFT)) (snd cf))
+  end).
+
+Definition attrspec_new_s (fg bg : str) (colors : Z) : res Z :=
+  if negb (valid_depth colors) then RErr AttrSpecError 6
+  else
+    rbind (set_foreground_s (init_value colors) fg) (fun v1 =>
+    rbind (set_background_s v1 bg) (fun v2 =>
+    let v3 := drop_marker v2 in
+    if colors <? attr_colors v3 then RErr AttrSpecError 5 else ROk v3)).
+
+(* _BASIC_COLORS[n] for n >= 0 *)
+Definition basic_name_s (n : Z) : result str := get_index BASIC_COLORS n.
+
+Definition foreground_color_s (v : Z) : result str :=
+  if negb (attr_foreground_basic v || attr_foreground_high v || attr_foreground_true v) then Ok S_default
+  else if attr_foreground_basic v then basic_name_s (attr_foreground_number v)
+  else if attr_colors v =? 88 then color_desc_88_s (attr_foreground_number v)
+  else if attr_colors v =? TRUE_DEPTH then color_desc_true_s (attr_foreground_number v)
+  else color_desc_256_s (attr_foreground_number v).
+
+(* ",bold" * self.bold + ",italics" * self.italics + ... *)
+Definition S_bold : str := [44; 98; 111; 108; 100].
+Definition S_italics : str := [44; 105; 116; 97; 108; 105; 99; 115].
+Definition S_standout : str := [44; 115; 116; 97; 110; 100; 111; 117; 116].
+Definition S_blink : str := [44; 98; 108; 105; 110; 107].
+Definition S_underline : str := [44; 117; 110; 100; 101; 114; 108; 105; 110; 101].
+Definition S_strikethrough : str := [44; 115; 116; 114; 105; 107; 101; 116; 104; 114; 111; 117; 103; 104].
+Definition times (s : str) (b : bool) : str := if b then s else [].
+Definition settings_suffix (v : Z) : str :=
+  times S_bold (attr_bold v) ++ times S_italics (attr_italics v) ++ times S_standout (attr_standout v)
+  ++ times S_blink (attr_blink v) ++ times S_underline (attr_underline v)
+  ++ times S_strikethrough (attr_strikethrough v).
+Definition foreground_s (v : Z) : result str :=
+  bind (foreground_color_s v) (fun c => Ok (c ++ settings_suffix v)).
+
+Definition background_s (v : Z) : result str :=
+  if negb (attr_background_basic v || attr_background_high v || attr_background_true v) then Ok S_default
+  else if attr_background_basic v then basic_name_s (attr_background_number v)
+  else if negb (Z.land v HIGH_88_COLOR =? 0) then color_desc_88_s (attr_background_number v)
+  else if attr_colors v =? TRUE_DEPTH then color_desc_true_s (attr_background_number v)
+  else color_desc_256_s (attr_background_number v).
+
 (* ---------------- wire format ---------------- *)
 (* case:  colors, nparts, part*, desc      part = 0 k | 1 tag payload      desc = tag payload
    reply: 0 errcode why
@@ -227,7 +332,7 @@ Definition describe_wire (v : Z) : list Z :=
      | Err e => [0; errcode e]
      end.
 
-Definition run_case (l : list Z) : list Z :=
+Definition run_desc_case (l : list Z) : list Z :=
   match l with
   | colors :: n :: r =>
       if n <? 0 then [9] else
@@ -240,4 +345,53 @@ Definition run_case (l : list Z) : list Z :=
       | _ => [9]
       end
   | _ => [9]
+  end.
+
+(* string level reply: 0 errcode why | 1 value colors <fg> <bg> <rgb> with <fg>,<bg> = 0 errcode | 1 len cp* *)
+Definition enc_str_res (r : result str) : list Z :=
+  match r with Ok s => 1 :: enc_list s | Err e => [0; errcode e] end.
+Definition describe_wire_s (v : Z) : list Z :=
+  [1; v; attr_colors v] ++ enc_str_res (foreground_s v) ++ enc_str_res (background_s v)
+  ++ match get_rgb_values v with
+     | Ok (f, b) => 1 :: enc_triple f ++ enc_triple b
+     | Err e => [0; errcode e]
+     end.
+Definition run_str_case (l : list Z) : list Z :=
+  match l with
+  | colors :: r =>
+      match dec_list r with
+      | Some (fg, r') =>
+          match dec_list r' with
+          | Some (bg, []) =>
+              match attrspec_new_s fg bg colors with
+              | RErr e w => [0; errcode e; w]
+              | ROk v => describe_wire_s v
+              end
+          | _ => [9]
+          end
+      | None => [9]
+      end
+  | _ => [9]
+  end.
+
+(* primitives: int(chr(c)) / chr(c).isspace() for a range of code points; int(s, base); s.strip(); s.split(",") *)
+Fixpoint cp_scan (n : nat) (c : Z) : list Z :=
+  match n with
+  | O => []
+  | S k => (match py_int 10 [c] with Some d => d | None => -1 end) :: enc_bool (uni_isspace c) :: cp_scan k (c + 1)
+  end.
+Definition run_prim (op : Z) (l : list Z) : list Z :=
+  if op =? 2 then match l with [lo; hi] => cp_scan (Z.to_nat (hi - lo)) lo | _ => [9] end
+  else if op =? 3 then match l with base :: s => enc_oz (py_int base s) | _ => [9] end
+  else if op =? 4 then strip l
+  else if op =? 5 then flat_map enc_list (split_on 44 l)
+  else [9].
+
+(* the first integer selects the sub-model: 0 description level (harness lexer), 1 raw strings, 2.. primitives *)
+Definition run_case (l : list Z) : list Z :=
+  match l with
+  | 0 :: r => run_desc_case r
+  | 1 :: r => run_str_case r
+  | op :: r => run_prim op r
+  | [] => [9]
   end.
